@@ -953,7 +953,7 @@ pub fn run(ctx: &Ctx) {
         ctx.subspace("proptest: encode histories of one serializer (up to 12 encodes, time steps 0..70000 h, 3 lists)", nh as u64, false);
     }
     if std::env::var("VCHECK_FUZZ").is_ok() && !ctx.quick() {
-        crate::fuzzdrv::run_campaign(ctx, "beacon_text", 200000);
+        crate::fuzzdrv::run_campaign_par(ctx, "beacon_text", 1_600_000, 8, 4096);
     }
 }
 
